@@ -442,13 +442,15 @@ impl TransportHandle {
 
     /// Get the peer ID for a given socket address, if connected.
     pub async fn get_peer_id_by_address(&self, addr: &str) -> Option<PeerId> {
-        let socket_addr: SocketAddr = addr.parse().ok()?;
+        // Both the query and the registered strings may be the library's own
+        // rendering "ip:port (four-words)", which is what the accept path stores.
+        let socket_addr = addr.parse::<NetworkAddress>().ok()?.socket_addr();
         let peers = self.peers.read().await;
 
         for (peer_id, peer_info) in peers.iter() {
             for peer_addr in &peer_info.addresses {
-                if let Ok(peer_socket) = peer_addr.parse::<SocketAddr>()
-                    && peer_socket == socket_addr
+                if let Ok(peer_socket) = peer_addr.parse::<NetworkAddress>()
+                    && peer_socket.socket_addr() == socket_addr
                 {
                     return Some(peer_id.clone());
                 }
@@ -505,11 +507,16 @@ impl TransportHandle {
             None
         };
 
-        let socket_addr: SocketAddr = address.parse().map_err(|e| {
-            P2PError::Network(NetworkError::InvalidAddress(
-                format!("{}: {}", address, e).into(),
-            ))
-        })?;
+        // Accept every address form the library itself renders (a registered peer
+        // address is "ip:port (four-words)"), not only a bare socket address.
+        let socket_addr: SocketAddr = address
+            .parse::<NetworkAddress>()
+            .map(|parsed| parsed.socket_addr())
+            .map_err(|e| {
+                P2PError::Network(NetworkError::InvalidAddress(
+                    format!("{}: {}", address, e).into(),
+                ))
+            })?;
 
         let normalized_addr = normalize_wildcard_to_loopback(socket_addr);
         let addr_list = vec![normalized_addr];
